@@ -2,44 +2,27 @@
    Property file: statements, `exact`, pins, assumptions.
 
    Snapshot model (Sched/WorkerModel.v): `ps` = all participants with their readers
-   (deadline, last_received_time of every owned instance), writers (deadline,
+   (deadline, last_received_time_stamp of every instance), writers (deadline,
    last_write_time of every registered instance, lifespan, source timestamps of the history,
    pending write with expiration time), discovered participants (lease, last communication)
    and announcement state; `n` = the six clock readings of one loop iteration;
-   next_task_time = the minimum the code computes; requested_delay = what
+   next_task_time = the minimum the code computes, clamped at zero; requested_delay = what
    `timer.delay(next_task_time.into())` is asked for, in ns. *)
 From DustDDS Require Import Base.Machine Time.TimeModel Sched.WorkerModel Sched.WorkerProofs.
 Open Scope Z_scope.
 
-(* the minimum itself never exceeds the poke period (for ALL snapshots) *)
+(* the sleep never exceeds the poke period and is never negative (for ALL snapshots) *)
 Theorem C31_min_le_poke :
-  forall ps n, dur_le (next_task_time ps n) poke_time.
-Proof. exact next_le_poke. Qed.
+  forall ps n, dur_le (next_task_time ps n) poke_time /\ 0 <= sec (next_task_time ps n).
+Proof. exact (fun ps n => conj (next_le_poke ps n) (next_nonneg ps n)). Qed.
 
-(* first clause, outside the recorded class C31-negative-sleep: the worker asks for at most
-   50 ms, whatever the entities, deadlines, leases, lifespans, timestamps, clock readings *)
-Theorem C31_sleep_le_poke_unless_negative :
-  forall ps n, Forall wf_part ps -> wf_nows n -> negative_sleep ps n = false ->
+(* first clause: the worker asks the timer for at most 50 ms (and for a non-negative time),
+   whatever the entities, deadlines, leases, lifespans, timestamps — including items that
+   are already overdue when the sleep is computed — and whatever the six clock readings *)
+Theorem C31_sleep_le_poke :
+  forall ps n, Forall wf_part ps -> wf_nows n ->
     exists d, requested_delay ps n = Ok d /\ 0 <= d <= POKE_NS.
-Proof. exact sleep_le_poke_unless_negative. Qed.
-
-(* the class is exactly "something is overdue": if no deadline / lease / lifespan item is
-   overdue at its clock reading, the minimum is not negative and the bound holds *)
-Theorem C31_sleep_le_poke_when_nothing_overdue :
-  forall ps n, Forall wf_part ps -> wf_nows n -> all_nonneg ps n = true ->
-    exists d, requested_delay ps n = Ok d /\ 0 <= d <= POKE_NS.
-Proof. exact sleep_le_poke_when_nothing_overdue. Qed.
-
-(* the full statement "for all inputs the delay is <= 50 ms" is FALSE on the code as it is:
-   inside the class the delay exceeds 1.8e19 seconds (finding C31-negative-sleep) *)
-Theorem C31_negative_sleep_is_huge :
-  forall ps n, Forall wf_part ps -> wf_nows n -> negative_sleep ps n = true ->
-    exists d, requested_delay ps n = Ok d /\ 18446744071000000000 * NS <= d.
-Proof. exact negative_sleep_is_huge. Qed.
-
-Theorem C31_sleep_le_poke_refuted :
-  exists ps n d, Forall wf_part ps /\ wf_nows n /\ requested_delay ps n = Ok d /\ POKE_NS < d.
-Proof. exact sleep_le_poke_refuted. Qed.
+Proof. exact sleep_le_poke. Qed.
 
 (* second clause: a write that blocks at t0 with max_blocking_time mbt on a worker whose
    loop iterations (`wakes`, in order) are at most one poke period apart is answered Timeout
@@ -51,21 +34,19 @@ Theorem C31_blocked_write_timeout_bound :
     exists w, pending_timeout (t0 + mbt) wakes = Some w /\ t0 + mbt <= w <= t0 + mbt + POKE_NS.
 Proof. exact blocked_write_timeout_bound. Qed.
 
-(* non-vacuity: the witness snapshot is well-formed and inside the class; a snapshot with a
-   deadline that is exactly due is outside *)
+(* non-vacuity: a well-formed snapshot with an instance 2.5 deadline periods behind (the
+   former witness of C31-negative-sleep) now yields delay 0; one with items exactly due or
+   in the future yields a positive delay below the poke period *)
 Example C31_nonvacuous :
-  negative_sleep [witness_part] (same_now (mkdur 10 0)) = true /\
-  all_nonneg [mkP true (Some (mkdur 10 0)) (mkdur 5 0) [(mkdur 100 0, mkdur 3 0)]
-                [mkR (Some (mkdur 0 100000000)) [mkdur 9 900000000]]
+  requested_delay [overdue_part] (same_now (mkdur 10 0)) = Ok 0 /\
+  requested_delay [mkP true (Some (mkdur 10 0)) (mkdur 5 0) [(mkdur 100 0, mkdur 3 0)]
+                [mkR (Some (mkdur 0 100000000)) [mkdur 9 930000000]]
                 [mkW (Some (mkdur 0 100000000)) [Some (mkdur 9 950000000)] (Some (mkdur 1 0))
                      [Some (mkdur 9 10000000)] (Some (Some (mkdur 10 20000000)))]]
-             (same_now (mkdur 10 0)) = true /\
+             (same_now (mkdur 10 0)) = Ok 10000000 /\
   pending_timeout (1000 + 120) [1050; 1100; 1150; 1200] = Some 1150.
 Proof. repeat split; vm_compute; reflexivity. Qed.
 
 Print Assumptions C31_min_le_poke.
-Print Assumptions C31_sleep_le_poke_unless_negative.
-Print Assumptions C31_sleep_le_poke_when_nothing_overdue.
-Print Assumptions C31_negative_sleep_is_huge.
-Print Assumptions C31_sleep_le_poke_refuted.
+Print Assumptions C31_sleep_le_poke.
 Print Assumptions C31_blocked_write_timeout_bound.
